@@ -397,6 +397,26 @@ fn handmade_seeds(medium: Medium) -> Vec<Vec<u8>> {
         if let Some(f) = wrap_l2(medium, buf, true) {
             v.push(f);
         }
+        // neighbor solicitation / advertisement / router solicitation / redirect with link-layer
+        // address options (on every medium, also where the medium does not use NDISC)
+        let lladdr = RawHardwareAddress::from_bytes(&[2, 0, 0, 0, 0, 2]);
+        let nd: Vec<(NdiscRepr, Ipv6Address)> = vec![
+            (NdiscRepr::NeighborSolicit { target_addr: dst, lladdr: Some(lladdr) }, dst),
+            (NdiscRepr::NeighborSolicit { target_addr: dst, lladdr: None }, Ipv6Address::new(0xff02, 0, 0, 0, 0, 1, 0xff00, 1)),
+            (NdiscRepr::NeighborAdvert { flags: NdiscNeighborFlags::SOLICITED | NdiscNeighborFlags::OVERRIDE, target_addr: src, lladdr: Some(lladdr) }, dst),
+            (NdiscRepr::NeighborAdvert { flags: NdiscNeighborFlags::empty(), target_addr: src, lladdr: None }, alln),
+            (NdiscRepr::RouterSolicit { lladdr: Some(lladdr) }, Ipv6Address::new(0xff02, 0, 0, 0, 0, 0, 0, 2)),
+        ];
+        for (r, d) in nd {
+            let ic = Icmpv6Repr::Ndisc(r);
+            let ip = Ipv6Repr { src_addr: src, dst_addr: d, next_header: IpProtocol::Icmpv6, payload_len: ic.buffer_len(), hop_limit: 255 };
+            let mut buf = vec![0u8; 40 + ic.buffer_len()];
+            ip.emit(&mut Ipv6Packet::new_unchecked(&mut buf[..]));
+            ic.emit(&src, &d, &mut Icmpv6Packet::new_unchecked(&mut buf[40..]), &Default::default());
+            if let Some(f) = wrap_l2(medium, buf, true) {
+                v.push(f);
+            }
+        }
         // router advertisement with prefix + mtu + lladdr
         let ra = Icmpv6Repr::Ndisc(NdiscRepr::RouterAdvert {
             hop_limit: 64,
@@ -735,7 +755,29 @@ fn main() {
             let cases: Vec<Case> = if sub == "oracle-replay" {
                 stdin_cases()
             } else {
-                let seeds = [capture_seeds(Medium::Ip), capture_seeds(Medium::Ethernet), capture_seeds(Medium::Ieee802154)];
+                let mut seeds = [capture_seeds(Medium::Ip), capture_seeds(Medium::Ethernet), capture_seeds(Medium::Ieee802154)];
+                // cross-medium sharing: every IP packet seen on Ethernet (NDISC, MLD, ...) is also a
+                // raw-IP seed and vice versa, whether or not that medium normally carries it
+                let from_eth: Vec<Vec<u8>> = seeds[1]
+                    .iter()
+                    .filter(|f| f.len() > 14 && (f[12..14] == [0x08, 0x00] || f[12..14] == [0x86, 0xdd]))
+                    .map(|f| f[14..].to_vec())
+                    .collect();
+                let from_ip: Vec<Vec<u8>> = seeds[0]
+                    .iter()
+                    .filter(|f| !f.is_empty())
+                    .filter_map(|f| wrap_l2(Medium::Ethernet, f.clone(), f[0] >> 4 == 6))
+                    .collect();
+                for f in from_eth {
+                    if !seeds[0].contains(&f) {
+                        seeds[0].push(f);
+                    }
+                }
+                for f in from_ip {
+                    if !seeds[1].contains(&f) {
+                        seeds[1].push(f);
+                    }
+                }
                 (0..n)
                     .map(|i| {
                         let mi = (i % 3) as usize;
